@@ -128,6 +128,20 @@ pub(crate) fn c03_withbot_unit_is_top() {
     kani::assert(none.is_top(), "C03:is_top_iff_greatest[WithBot<()>(None)]");
 }
 
+/// Known finding (DESIGN section 12, 6.6): over a FINITE item domain the full set is the greatest element of the set-union lattice,
+/// yet `SetUnion::is_top` is constantly false.  The other values of the lattice over `bool` (the empty set and the two
+/// singletons, here as `OptionSet`) are all strictly below the full set.
+#[kani::proof]
+#[kani::unwind(4)]
+pub(crate) fn c03_set_union_full_bool_is_top() {
+    use lattices::collections::{ArraySet, OptionSet};
+    use lattices::set_union::SetUnion;
+    let full = SetUnion::new(ArraySet::<bool, 2>([false, true]));
+    let other = SetUnion::new(OptionSet::<bool>(kani::any()));
+    kani::assert(other.partial_cmp(&full) == Some(Less) && full.partial_cmp(&full) == Some(Equal), "C03:full_bool_set_is_above_every_value");
+    kani::assert(full.is_top(), "C03:is_top_iff_greatest[SetUnion<ArraySet<bool,2>>{false,true}]");
+}
+
 /// Point: "point lattices only ever merge equal values" is the precondition; under it merge reports
 /// no change, comparison is Equal, and it is both bottom and top of its one-point class.
 #[kani::proof]
